@@ -1,8 +1,10 @@
 /-
 C04 — user-controlled text cannot change the token structure of emitted SQL.
-ONLY property statements at full strength, the refutation of the part that is false for the code as it
-is (identifiers are written verbatim), what holds instead (`_partial`) and what holds for the repaired
-emitter (`_fixed`), plus non-vacuity examples. Lemmas: `Dawgs/Proofs/C04.lean`; model: `Dawgs/Model/C04.lean`.
+ONLY property statements at full strength, what holds for the code as it is (`_partial`: since the repair of F9
+a back-ticked symbol is written as a quoted identifier, so no name can change the token structure), the refutation
+of the part that is still false (unquoted names are case-folded), the refutation of the token-structure statement
+for the emitter the code had before the repair (`…_old`, F9), what holds for an emitter quoting every identifier
+(`_fixed`), plus non-vacuity examples. Lemmas: `Dawgs/Proofs/C04.lean`; model: `Dawgs/Model/C04.lean`.
 
 Guard used everywhere: the user text is NUL-free. The real code rejects nothing (neither `formatValue` nor
 `decodeCypherStringLiteral` looks for NUL); `properties.jsonl` quantifies over NUL-free text, and a NUL
@@ -133,52 +135,135 @@ theorem nested_sql_param_bound (ipre ipost opre opost v v' : Str)
   · exact pgQuote_shape_independent ipre v v' ipost hipre hv hv' hipost
   · exact pgQuote_shape_independent opre _ _ opost hopre (hin v hv) (hin v' hv') hopost
 
+/-- the literal branches of `formatLiteral`: an interval-typed literal (Cypher `duration('…')`) is the word
+`interval`, a space, and the value through the same `formatValue`; date/time constructors are a type cast written
+AFTER the quoted value (`('…')::date`). Both are instances of `pgQuote_in_context`; this is the interval one. -/
+theorem interval_literal (pre s post : Str) (hpre : Clean pre) (hs : NUL ∉ s) (hpost : contQuote post = false) :
+    lex (pre ++ "interval ".toList ++ pgQuote s ++ post) =
+      (run .top (pre ++ "interval ".toList)).1 ++ Tok.str s :: lex post := by
+  have hclean : Clean (pre ++ "interval ".toList) := by
+    unfold Clean at *
+    rw [run_append, hpre]
+    show (run Mode.top "interval ".toList).2 = Mode.top
+    decide
+  exact lit_in_context (pre ++ "interval ".toList) s post hclean hs hpost
+
 /-! ## 5. identifiers (variable names, result aliases) -/
 
-/-- the symbol of a Cypher variable / alias as the frontend stores it (`ctx.GetText()`): the back-ticked
-form keeps its back-ticks -/
-def btSymbol (name : Str) : Str := escapeKeyBt name
+/-- the symbol of a Cypher variable / alias as the frontend stores it (`ctx.GetText()`): a name is either written
+bare (possible only for `cypherBare` names) or back-ticked (possible for every name); the back-ticked token keeps
+its back-ticks. -/
+inductive SymbolOf : Str → Str → Prop
+  | bare (name : Str) : cypherBare name = true → SymbolOf name name
+  | bt (name : Str) : SymbolOf name (escapeKeyBt name)
 
-/-- the statement of `properties.jsonl` for identifiers, at full strength: whatever name an accepted query
-gives to a variable or result alias (written bare or back-ticked), the formatter's output is one identifier
-token whose value is the name, in any clean context. -/
-def IdentFull (emit : Str → Str) : Prop :=
-  ∀ (name pre post : Str), name ≠ [] → NUL ∉ name → Clean pre → post = [] ∨ post = " from s0;".toList →
-    ∃ t, (t = Tok.word name ∨ t = Tok.qident name) ∧ lex (pre ++ emit name ++ post) = (run .top pre).1 ++ t :: lex post
+/-- text of an identifier token as written -/
+def identText : Tok → Option Str
+  | .word w => some w
+  | .qident q => some q
+  | _ => none
 
-/-- F9: the code writes the stored symbol verbatim (`emitIdent`), and for a name that needs back-ticks the
-stored symbol is the back-ticked token. Witness: RETURN n.name AS `x; drop table node; --`. -/
+/-- the identifier the server reads back: unquoted identifiers are case-folded (`downcase_identifier`) -/
+def identValue : Tok → Option Str
+  | .word w => some (pgFold w)
+  | .qident q => some q
+  | _ => none
+
+/-- Token-structure statement for identifiers: whatever name an accepted query gives to a variable or result
+alias, and however it is written, the emitter's output is exactly one identifier token carrying the name `name`
+(under the reading `rd` of identifier tokens), in any clean context, followed by what the formatter writes after an
+alias (nothing, or " from …"). -/
+def IdentOneToken (emit : Str → Str) (rd : Tok → Option Str) : Prop :=
+  ∀ (name sym pre post : Str), SymbolOf name sym → name ≠ [] → NUL ∉ name → Clean pre →
+    post = [] ∨ post = " from s0;".toList →
+    ∃ t, rd t = some name ∧ lex (pre ++ emit sym ++ post) = (run .top pre).1 ++ t :: lex post
+
 def f9Name : Str := "x; drop table node; --".toList
 
-theorem identifier_verbatim_unsafe : ¬ IdentFull (fun name => emitIdent (btSymbol name)) := by
+/-- F9, about the emitter the code had BEFORE the repair (`emitIdentOld`, verbatim): even the token-structure
+statement is false. Witness: RETURN n.name AS `x; drop table node; --`. Kept as the regression statement: the tie
+reports exactly this shape (`unquoted-identifier`) if the verbatim write comes back. -/
+theorem identifier_verbatim_unsafe_old : ¬ IdentOneToken emitIdentOld identText := by
   intro h
-  obtain ⟨t, ht, hl⟩ := h f9Name "select 1 as ".toList [] (by decide) (by decide) (by decide) (Or.inl rfl)
-  rcases ht with rfl | rfl <;> revert hl <;> decide
+  obtain ⟨t, ht, hl⟩ := h f9Name (escapeKeyBt f9Name) "select 1 as ".toList [] (.bt _) (by decide) (by decide) (by decide) (Or.inl rfl)
+  have hl' : lex ("select 1 as ".toList ++ emitIdentOld (escapeKeyBt f9Name) ++ []) =
+      [.word "select".toList, .num ['1'], .word "as".toList, .op ['`'], .word ['x'], .punct ';',
+       .word "drop".toList, .word "table".toList, .word "node".toList, .punct ';'] := by decide
+  have hr : (run Mode.top "select 1 as ".toList).1 = [.word "select".toList, .num ['1'], .word "as".toList] := by decide
+  rw [hl', hr] at hl
+  have hlex : lex ([] : Str) = [] := rfl
+  rw [hlex] at hl
+  simp at hl
 
-/-- the same witness written without back-ticks cannot occur (it is not a Cypher symbolic name), but even
-the verbatim text of the bare statement is refuted: this is the token list the server would see -/
+/-- the token list the server would see for the F9 witness under the old emitter -/
 example : lex ("select 1 as `x; drop table node; --` from s0;".toList) =
     [.word "select".toList, .num ['1'], .word "as".toList, .op ['`'], .word ['x'], .punct ';',
      .word "drop".toList, .word "table".toList, .word "node".toList, .punct ';'] := by decide
 
-/-- what holds for the code as it is: a name matching `[A-Za-z_][A-Za-z0-9_]*` (minus reserved key words,
-which the lexer does not distinguish but the parser does) written verbatim is exactly one identifier token
-with that text, provided the formatter continues with something that is neither an identifier character
-nor a quote (`identFollow`: it writes " ", ",", ")", ";" or stops). The server folds the token to lower
-case (`pgFold`), so the name read back equals the Cypher name only for names without upper-case letters. -/
+/-- live emitter, back-ticked symbol: `formatIdentifier` unescapes it and writes `"…"` with `""` doubling, which
+lexes as exactly one quoted identifier whose value is the name — for EVERY NUL-free name -/
+theorem identifier_quoted (name pre post : Str) (hn : NUL ∉ name) (hpre : Clean pre) (hpost : contDQ post = false) :
+    lex (pre ++ emitIdent (escapeKeyBt name) ++ post) = (run .top pre).1 ++ Tok.qident name :: lex post := by
+  rw [emitIdent_bt]
+  exact qident_in_context pre name post hpre hn hpost
+
+/-- live emitter, bare symbol: written verbatim, and a bare Cypher name is exactly one word token, provided the
+formatter continues with something that is neither an identifier character nor a quote (`identFollow`: it writes
+" ", ",", ")", ";" or stops) -/
+theorem identifier_bare (name pre post : Str) (hn : cypherBare name = true) (hpre : Clean pre)
+    (hpost : identFollow post = true) :
+    lex (pre ++ emitIdent name ++ post) = (run .top pre).1 ++ Tok.word name :: lex post := by
+  rw [emitIdent_bare name hn]
+  exact bare_in_context pre name post hpre hn hpost
+
+/-- `[A-Za-z_][A-Za-z0-9_]*` minus reserved words is a special case of a bare name -/
 theorem identifier_partial (name pre post : Str) (hn : identSafe name = true) (hpre : Clean pre)
     (hpost : identFollow post = true) :
     lex (pre ++ emitIdent name ++ post) = (run .top pre).1 ++ Tok.word name :: lex post :=
-  ident_in_context pre name post hpre hn hpost
+  identifier_bare name pre post (identSafe_cypherBare name hn) hpre hpost
 
-/-- the repaired emitter (`"` + name with `"` doubled + `"`) satisfies the full statement for every name -/
-theorem identifier_fixed_token (name pre post : Str) (hn : NUL ∉ name) (hpre : Clean pre) (hpost : contDQ post = false) :
-    lex (pre ++ qQuote name ++ post) = (run .top pre).1 ++ Tok.qident name :: lex post :=
-  qident_in_context pre name post hpre hn hpost
+/-- the live emitter satisfies the token-structure statement for every name, bare or back-ticked -/
+theorem identifier_fixed : IdentOneToken emitIdent identText := by
+  intro name sym pre post hsym _ hn hpre hpost
+  cases hsym with
+  | bare hb =>
+    refine ⟨Tok.word name, rfl, identifier_bare name pre post hb hpre ?_⟩
+    rcases hpost with rfl | rfl <;> decide
+  | bt =>
+    refine ⟨Tok.qident name, rfl, identifier_quoted name pre post hn hpre ?_⟩
+    rcases hpost with rfl | rfl <;> decide
 
-theorem identifier_fixed : IdentFull qQuote := by
-  intro name pre post _ hn hpre hpost
-  refine ⟨Tok.qident name, Or.inr rfl, qident_in_context pre name post hpre hn ?_⟩
+/-- what still fails for the live emitter: a bare name with an upper-case letter is read back lower-cased
+(findings `*:case-folded-identifier`). Witness: RETURN 1 AS A. -/
+theorem identifier_case_folded : ¬ IdentOneToken emitIdent identValue := by
+  intro h
+  obtain ⟨t, ht, hl⟩ := h ['A'] ['A'] [] [] (.bare _ (by decide)) (by decide) (by decide) (by decide) (Or.inl rfl)
+  have hl' : lex (([] : Str) ++ emitIdent ['A'] ++ []) = [Tok.word ['A']] := by decide
+  have hr : (run Mode.top ([] : Str)).1 = [] := rfl
+  have hlex : lex ([] : Str) = [] := rfl
+  rw [hl', hr, hlex] at hl
+  simp at hl
+  subst hl
+  revert ht; decide
+
+/-- an emitter that quotes every identifier (bare ones too) gives back the exact name, for every name -/
+def emitIdentQuoteAll (sym : Str) : Str := qQuote (unescapeKey sym)
+
+theorem unescapeKey_bare (name : Str) (h : cypherBare name = true) : unescapeKey name = name := by
+  obtain ⟨c, cs, rfl, hc, _⟩ := cypherBare_parts name h
+  have hne : c ≠ '`' := by intro e; subst e; revert hc; decide
+  simp [unescapeKey, hne]
+
+theorem identifier_quote_all : IdentOneToken emitIdentQuoteAll identValue := by
+  intro name sym pre post hsym _ hn hpre hpost
+  have hu : unescapeKey sym = name := by
+    cases hsym with
+    | bare hb => exact unescapeKey_bare name hb
+    | bt => exact unescapeKey_escapeKeyBt_aux name
+  refine ⟨Tok.qident name, rfl, ?_⟩
+  unfold emitIdentQuoteAll
+  rw [hu]
+  refine qident_in_context pre name post hpre hn ?_
   rcases hpost with rfl | rfl <;> decide
 
 /-! ## 6. the driver's lexer is the proved one -/
@@ -195,27 +280,30 @@ def ValuesSafe : Prop :=
   ∧ (∀ s : Str, decode (encode s) = .ok s)
   ∧ (∀ s : Str, unescapeKey (escapeKeyBt s) = s)
 
-/-- C04 at the strength of `properties.jsonl` for the code as it is: values AND identifiers -/
-def C04_full : Prop := ValuesSafe ∧ IdentFull (fun name => emitIdent (btSymbol name))
+/-- C04 at the strength of `properties.jsonl` for the code as it is (live emitter `formatIdentifier`): values, and
+identifiers as ONE token whose value as the server reads it back is the Cypher name -/
+def C04_full : Prop := ValuesSafe ∧ IdentOneToken emitIdent identValue
 
-/-- what holds for the code as it is -/
-def C04_partial : Prop :=
-  ValuesSafe ∧
-  (∀ (name pre post : Str), identSafe name = true → Clean pre → identFollow post = true →
-      lex (pre ++ emitIdent name ++ post) = (run .top pre).1 ++ Tok.word name :: lex post)
+/-- what holds for the code as it is: values, and identifiers as one token carrying the name as written
+(token structure can no longer be changed by a name; an unquoted name is still case-folded by the server) -/
+def C04_partial : Prop := ValuesSafe ∧ IdentOneToken emitIdent identText
 
-/-- the full statement with the identifier emitter repaired -/
-def C04_fixed : Prop := ValuesSafe ∧ IdentFull qQuote
+/-- the same statement for the code before the identifier repair (false, F9) -/
+def C04_partial_old : Prop := ValuesSafe ∧ IdentOneToken emitIdentOld identText
+
+/-- the full statement for an emitter that quotes every identifier -/
+def C04_fixed : Prop := ValuesSafe ∧ IdentOneToken emitIdentQuoteAll identValue
 
 theorem values_safe : ValuesSafe :=
   ⟨fun pre s post h1 h2 h3 => lit_in_context pre s post h1 h2 h3, decode_iff, decode_encode_aux, unescapeKey_escapeKeyBt_aux⟩
 
-theorem c04_full_refuted : ¬ C04_full := fun h => identifier_verbatim_unsafe h.2
+theorem c04_full_refuted : ¬ C04_full := fun h => identifier_case_folded h.2
 
-theorem c04_partial : C04_partial :=
-  ⟨values_safe, fun name pre post hn hpre hpost => ident_in_context pre name post hpre hn hpost⟩
+theorem c04_partial : C04_partial := ⟨values_safe, identifier_fixed⟩
 
-theorem c04_fixed : C04_fixed := ⟨values_safe, identifier_fixed⟩
+theorem c04_partial_old_refuted : ¬ C04_partial_old := fun h => identifier_verbatim_unsafe_old h.2
+
+theorem c04_fixed : C04_fixed := ⟨values_safe, identifier_quote_all⟩
 
 /-! ## non-vacuity: the hypotheses are satisfiable on the text the formatter really writes -/
 
@@ -233,6 +321,11 @@ example : identSafe "select".toList = false := by decide
 -- the continuation guard is needed: a newline between two constants merges them (SQL standard)
 example : lex ("'a'\n'b'".toList) = [.str "ab".toList] := by decide
 example : contQuote "\n'b'".toList = true := by decide
+-- a `--` comment ends at a carriage return as well as at a line feed (scan.l `newline [\\n\\r]`): text after a bare \\r is SQL
+example : lex ("-- match (n) where n.name = 'x\rdelete from node; --' return n\nselect 1;".toList) =
+    [.word "delete".toList, .word "from".toList, .word "node".toList, .punct ';', .word "select".toList, .num ['1'], .punct ';'] := by decide
+example : lex ("-- match (n) where n.name = 'x\n-- delete from node; --' return n\nselect 1;".toList) =
+    [.word "select".toList, .num ['1'], .punct ';'] := by decide
 -- the NUL guard is needed: the server's view of the text ends at the NUL
 example : lex (pgQuote ['a', NUL, 'b'] ++ " x".toList) = [.err "unterminated quoted string", .nul] := by decide
 -- decoder: accepted and rejected tokens
@@ -246,7 +339,12 @@ example : Denotes "\"a'b\"".toList "a'b".toList :=
 set_option maxRecDepth 8192 in
 example : Clean "insert into traversal_pair_filter (root_id, terminal_id) select distinct n1.id from node n1 where (n1.properties ->> 'name') = ".toList := by
   decide
-example : lex (qQuote "x; drop table node; --".toList ++ " from s0;".toList) =
+example : lex (emitIdent "`x; drop table node; --`".toList ++ " from s0;".toList) =
     [.qident "x; drop table node; --".toList, .word "from".toList, .word "s0".toList, .punct ';'] := by decide
+example : String.ofList (emitIdent "`a``b\"c`".toList) = "\"a`b\"\"c\"" := by decide
+example : emitIdent "UserCount".toList = "UserCount".toList := by decide
+example : cypherBare "zq_benign1$".toList = true := by decide
+example : SymbolOf f9Name (escapeKeyBt f9Name) := .bt _
+example : Clean "interval ".toList := by decide
 
 end Dawgs.C04.Props
